@@ -34,11 +34,11 @@ def whole(x):
     return int(f)
 
 
-def harvest(case, extra_kwargs=None):
+def harvest(case, extra_kwargs=None, base_frame=None):
     """Runs the implementation; returns JSON-able dict with per-estimand unit frames and per (estimand, aggregate) frames."""
     from harness import run_impl
 
-    r = run_impl.run_case(case, want_client=True, extra_kwargs=extra_kwargs)
+    r = run_impl.run_case(case, want_client=True, extra_kwargs=extra_kwargs, base_frame=base_frame)
     out = {"ok": r["ok"], "exc": r["exc"], "tb": r.get("tb")}
     if not r["ok"]:
         return out
